@@ -1035,9 +1035,12 @@ class Node:
         message_id = (f"{conn.ident}:"
                       f"{message.header.hop_by_hop_identifier}:"
                       f"{message.header.end_to_end_identifier}")
-        if message_id not in self._origin_waiting_answer:
+        # popped in one step, as the connection thread drops the records of a
+        # connection that it removes
+        origin = self._origin_waiting_answer.pop(message_id, None)
+        if origin is None:
             return
-        origin_host, recv_time = self._origin_waiting_answer[message_id]
+        origin_host, recv_time = origin
         process_time = time.time() - recv_time
 
         # setdefault, as two threads may record their first answers towards
@@ -1045,8 +1048,6 @@ class Node:
         self._sent_answers.setdefault(
             origin_host, deque(maxlen=self.retransmit_queue_size)
         ).append(message.header.end_to_end_identifier)
-
-        del self._origin_waiting_answer[message_id]
 
         peer = self._find_connection_peer(conn)
         if peer:
@@ -1493,6 +1494,12 @@ class Node:
         # Remove pending answer tracking; we cannot know if the peer will
         # persist its hop-by-hop IDs over reconnect.
         self._peer_waiting_answer.pop(conn.ident, None)
+        # The origins noted for its requests that never got an answer are of
+        # no use either, an answer can no longer be sent on this connection
+        origin_prefix = f"{conn.ident}:"
+        for message_id in list(self._origin_waiting_answer):
+            if message_id.startswith(origin_prefix):
+                self._origin_waiting_answer.pop(message_id, None)
 
         # Check if this was the last available peer for an app and clear app
         # ready flag if so, resulting in `wait_for_ready` to block again.
